@@ -314,21 +314,32 @@ Definition xb_file (p : pic) (two : bool) (f0 f1 : font) (fh : N) (comp : bool) 
 Lemma xb_file_plain p two f0 f1 fh : xb_file p two f0 f1 fh false (save_rows (xb_enc p two) (p_rows p)) = xb_data p two f0 f1 fh.
 Proof. unfold xb_file, xb_data, xb_flagsv. rewrite xb_flagsc_false. reflexivity. Qed.
 
-(* what the writer needs of a picture, whatever its cells are (xb_hyps without the conditions on the cells) *)
-Definition xb_shape (p : pic) (two : bool) (f0 f1 : font) (fh : N) : Prop :=
-  xb_common p /\ used_pages (p_rows p) = xb_fonts two /\
-  get_font (p_fonts p) 0 = Some f0 /\ font_wf fh f0 /\ (1 <= fh <= 32)%N /\
-  (two = true -> get_font (p_fonts p) 1 = Some f1 /\ font_wf fh f1).
+(* the font pages a writer finds in the picture: one page (any number) or two (any two numbers, ascending) *)
+Definition xb_pages (two : bool) (pg0 pg1 : N) : list N := if two then [pg0; pg1] else [pg0].
+
+(* what the blocks in front of the data section need: size, palette, one or two 256-glyph fonts of one height 1..32 *)
+Definition xb_blocks (p : pic) (two : bool) (f0 f1 : font) (fh : N) : Prop :=
+  xb_common p /\ font_wf fh f0 /\ (1 <= fh <= 32)%N /\ (two = true -> font_wf fh f1).
+
+(* what the writer needs of a picture, whatever its cells are: the pages in use are pg0 (and pg1) and their fonts are f0 (f1) *)
+Definition xb_shape_g (p : pic) (two : bool) (pg0 pg1 : N) (f0 f1 : font) (fh : N) : Prop :=
+  xb_blocks p two f0 f1 fh /\ used_pages (p_rows p) = xb_pages two pg0 pg1 /\
+  get_font (p_fonts p) pg0 = Some f0 /\ (two = true -> get_font (p_fonts p) pg1 = Some f1).
+Definition xb_shape (p : pic) (two : bool) (f0 f1 : font) (fh : N) : Prop := xb_shape_g p two 0 1 f0 f1 fh.
 
 Lemma xb_hyps_shape p two f0 f1 fh : xb_hyps p two f0 f1 fh -> xb_shape p two f0 f1 fh.
-Proof. intros (H1 & H2 & H3 & H4 & H5 & H6 & _). exact (conj H1 (conj H2 (conj H3 (conj H4 (conj H5 H6))))). Qed.
+Proof.
+  intros (H1 & H2 & H3 & H4 & H5 & H6 & _). unfold xb_shape, xb_shape_g, xb_blocks.
+  split; [split; [exact H1|split; [exact H4|split; [exact H5|intro E; apply (H6 E)]]]|].
+  split; [destruct two; exact H2|]. split; [exact H3|intro E; apply (H6 E)].
+Qed.
 
 (* the writer: everything in front of the data section does not depend on SaveOptions.compress except the flag bit, and
    the data section is the last thing in the file *)
-Lemma xb_saveo p two f0 f1 fh comp : xb_shape p two f0 f1 fh ->
-  save_xbo comp p = let* D := xb_data_section comp (p_ice p) (xb_fonts two) (p_rows p) in Ok (xb_file p two f0 f1 fh comp D).
+Lemma xb_saveo p two pg0 pg1 f0 f1 fh comp : xb_shape_g p two pg0 pg1 f0 f1 fh ->
+  save_xbo comp p = let* D := xb_data_section comp (p_ice p) (xb_pages two pg0 pg1) (p_rows p) in Ok (xb_file p two f0 f1 fh comp D).
 Proof.
-  intros (Hcommon & Hfonts & Hf0 & Hwf0 & Hfh & Hf1).
+  intros ((Hcommon & Hwf0 & Hfh & Hwf1) & Hfonts & Hf0 & Hf1).
   destruct Hcommon as (Hrect & Hw & Hh & Hpl & Hp6).
   pose proof Hwf0 as (Hfh0 & Hfl0 & Hg0 & Hall0).
   assert (Hc0 : length (convert_to_u8_data f0) = (256 * N.to_nat fh)%nat) by (apply convert_wf_length; exact Hwf0).
@@ -339,7 +350,7 @@ Proof.
   { unfold xb_pal_part. destruct (xb_palb p); [|reflexivity]. rewrite fill_to_16_full by exact Hpl.
     rewrite as_vec_63_length, Hpl. reflexivity. }
   unfold save_xbo. rewrite Hfonts.
-  destruct two; unfold xb_fonts; rewrite Hf0, Hfl0; cbn [N.eqb Pos.eqb negb length Nat.ltb Nat.leb Nat.eqb];
+  destruct two; unfold xb_pages; rewrite Hf0, Hfl0; cbn [N.eqb Pos.eqb negb length Nat.ltb Nat.leb Nat.eqb];
     rewrite Hfh0; (destruct (N.ltb_spec fh 1); [lia|]); (destruct (N.ltb_spec 32 fh); [lia|]); cbn [orb].
   - (* two fonts *)
     change ((if negb (f_default f0) || true then XBIN_FLAG_FONT else 0) + (if negb (pal_is_default (p_pal p)) then XBIN_FLAG_PALETTE else 0)
@@ -349,10 +360,10 @@ Proof.
     destruct (xb_flagsc_decode (xb_fontb f0 true) (xb_palb p) comp (is_ice (p_ice p)) true) as (Hd1 & Hd2 & _ & _ & _).
     rewrite Hd1, Hd2. fold (xb_palb p). rewrite Hpp. cbn [bind].
     unfold xb_fontb. rewrite orb_true_r. rewrite Hc0, Nat.eqb_refl. cbn [negb].
-    destruct (Hf1 eq_refl) as (Hg1 & Hwf1). rewrite Hg1.
+    rewrite (Hf1 eq_refl). specialize (Hwf1 eq_refl).
     pose proof (convert_wf_length fh f1 Hwf1) as Hc1. destruct Hwf1 as (_ & Hfl1 & _ & _).
     rewrite Hfl1. cbn [N.eqb Pos.eqb negb]. rewrite Hc1, Nat.eqb_refl. cbn [negb bind].
-    destruct (xb_data_section comp (p_ice p) [0%N; 1%N] (p_rows p)) as [D|e|s]; cbn [bind]; try reflexivity;
+    destruct (xb_data_section comp (p_ice p) [pg0; pg1] (p_rows p)) as [D|e|s]; cbn [bind]; try reflexivity;
       unfold xb_file, xb_font_part, xb_fontb; rewrite orb_true_r; rewrite <- !app_assoc; reflexivity.
   - (* one font *)
     change ((if negb (f_default f0) || false then XBIN_FLAG_FONT else 0) + (if negb (pal_is_default (p_pal p)) then XBIN_FLAG_PALETTE else 0)
@@ -364,9 +375,9 @@ Proof.
     unfold xb_file, xb_font_part.
     destruct (xb_fontb f0 false).
     + rewrite Hc0, Nat.eqb_refl. cbn [negb bind].
-      destruct (xb_data_section comp (p_ice p) [0%N] (p_rows p)) as [D|e|s]; cbn [bind]; try reflexivity;
+      destruct (xb_data_section comp (p_ice p) [pg0] (p_rows p)) as [D|e|s]; cbn [bind]; try reflexivity;
         rewrite <- !app_assoc; reflexivity.
-    + cbn [bind]. destruct (xb_data_section comp (p_ice p) [0%N] (p_rows p)) as [D|e|s]; cbn [bind]; try reflexivity;
+    + cbn [bind]. destruct (xb_data_section comp (p_ice p) [pg0] (p_rows p)) as [D|e|s]; cbn [bind]; try reflexivity;
         rewrite <- !app_assoc; reflexivity.
 Qed.
 
@@ -380,13 +391,13 @@ Qed.
 
 (* the loader (as it is after C02's fixes): with FLAG_COMPRESS it calls read_data_compressed, without it
    read_data_uncompressed, on exactly the bytes behind the header, palette and font blocks, with the layer emptied by the fix *)
-Lemma xb_load2 p s two f0 f1 fh comp D : xb_shape p two f0 f1 fh ->
+Lemma xb_load2 p s two f0 f1 fh comp D : xb_blocks p two f0 f1 fh ->
   load_xb2 (xb_file p two f0 f1 fh comp D) s =
   let* L := (if comp then xb_read_compressed (p_w p) (xb_mode (p_ice p)) two (mkLayer (p_w p) (p_h p) []) D
              else Ok (xb_read_uncompressed (p_w p) (xb_mode (p_ice p)) two (mkLayer (p_w p) (p_h p) []) 0 0 D)) in
   Ok (crop_loaded_file (set_layer (xb_b3 p two f0 f1 fh) L)).
 Proof.
-  intros (Hcommon & Hfonts & Hf0 & Hwf0 & Hfh & Hf1).
+  intros (Hcommon & Hwf0 & Hfh & Hwf1).
   destruct Hcommon as (Hrect & Hw & Hh & Hpl & Hp6).
   destruct Hrect as (Hw0 & Hh0 & Hlen & Hrows).
   unfold load_xb2.
@@ -431,7 +442,7 @@ Proof.
               else Ok (b, xb_font_part two f0 f1 ++ R)) = Ok (set_fonts b (xb_loaded_fonts two f0 f1 fh), R)).
   { intros b R Hb. unfold xb_font_part, xb_loaded_fonts. destruct (xb_fontb f0 two).
     - destruct two.
-      + destruct (Hf1 eq_refl) as (_ & Hwf1).
+      + specialize (Hwf1 eq_refl).
         assert (Hc1 : length (convert_to_u8_data f1) = (N.to_nat fh * 256)%nat) by (rewrite (convert_wf_length fh f1 Hwf1); lia).
         rewrite !app_length, Hc0, Hc1.
         destruct (Nat.ltb_spec (N.to_nat fh * 256 + N.to_nat fh * 256 + length R) (N.to_nat fh * 256 * 2)); [lia|].
@@ -457,30 +468,30 @@ Proof. intros (_ & _ & _ & H). exact H. Qed.
 
 (* compressed and uncompressed FILES of the same picture load to the SAME buffer (sizes, modes, palette, font table, every
    stored cell with its font page, line count), for every picture whose size, palette and fonts the format admits -
-   whatever its cells are - and whatever SAUCE records accompany the two files *)
-Lemma xb_files_load_alike p two f0 f1 fh s s' dc : xb_shape p two f0 f1 fh ->
+   whatever its cells and its font page numbers are - and whatever SAUCE records accompany the two files *)
+Lemma xb_files_load_alike p two pg0 pg1 f0 f1 fh s s' dc : xb_shape_g p two pg0 pg1 f0 f1 fh ->
   save_xbo true p = Ok dc ->
   exists du, save_xbo false p = Ok du /\ load_xb2 dc s = load_xb2 du s'.
 Proof.
-  intros Hs Hc. pose proof Hs as (Hcommon & _). destruct Hcommon as (Hrect & _).
-  rewrite (xb_saveo p two f0 f1 fh true Hs) in Hc.
-  destruct (xb_data_section true (p_ice p) (xb_fonts two) (p_rows p)) as [cb|e|s0] eqn:Ec; cbn [bind] in Hc; try discriminate.
+  intros Hs Hc. pose proof Hs as (Hb & _). pose proof Hb as (Hcommon & _). destruct Hcommon as (Hrect & _).
+  rewrite (xb_saveo p two pg0 pg1 f0 f1 fh true Hs) in Hc.
+  destruct (xb_data_section true (p_ice p) (xb_pages two pg0 pg1) (p_rows p)) as [cb|e|s0] eqn:Ec; cbn [bind] in Hc; try discriminate.
   injection Hc as <-.
-  destruct (proj1 (xb_data_section_ok_iff (p_ice p) (xb_fonts two) (p_rows p)) (ex_intro _ cb Ec)) as (pb & Ep).
+  destruct (proj1 (xb_data_section_ok_iff (p_ice p) (xb_pages two pg0 pg1) (p_rows p)) (ex_intro _ cb Ec)) as (pb & Ep).
   exists (xb_file p two f0 f1 fh false pb). split.
-  - rewrite (xb_saveo p two f0 f1 fh false Hs), Ep. reflexivity.
-  - rewrite !(xb_load2 _ _ _ _ _ _ _ _ Hs).
+  - rewrite (xb_saveo p two pg0 pg1 f0 f1 fh false Hs), Ep. reflexivity.
+  - rewrite !(xb_load2 _ _ _ _ _ _ _ _ Hb).
     rewrite (xb_sections_load_alike _ _ _ _ cb pb _ _ _ _ (rect_same_width p Hrect) Ec Ep). reflexivity.
 Qed.
 
 (* conversely the compressed file exists whenever the uncompressed one does *)
-Lemma xb_files_exist_alike p two f0 f1 fh : xb_shape p two f0 f1 fh ->
+Lemma xb_files_exist_alike p two pg0 pg1 f0 f1 fh : xb_shape_g p two pg0 pg1 f0 f1 fh ->
   ((exists dc, save_xbo true p = Ok dc) <-> (exists du, save_xbo false p = Ok du)).
 Proof.
-  intro Hs. rewrite !(xb_saveo p two f0 f1 fh _ Hs).
-  pose proof (xb_data_section_ok_iff (p_ice p) (xb_fonts two) (p_rows p)) as Hiff.
-  destruct (xb_data_section true (p_ice p) (xb_fonts two) (p_rows p)) as [cb|e|s0];
-    destruct (xb_data_section false (p_ice p) (xb_fonts two) (p_rows p)) as [pb|e'|s1]; cbn [bind];
+  intro Hs. rewrite !(xb_saveo p two pg0 pg1 f0 f1 fh _ Hs).
+  pose proof (xb_data_section_ok_iff (p_ice p) (xb_pages two pg0 pg1) (p_rows p)) as Hiff.
+  destruct (xb_data_section true (p_ice p) (xb_pages two pg0 pg1) (p_rows p)) as [cb|e|s0];
+    destruct (xb_data_section false (p_ice p) (xb_pages two pg0 pg1) (p_rows p)) as [pb|e'|s1]; cbn [bind];
     split; intros [x Hx]; try discriminate; try (eexists; reflexivity).
   - destruct Hiff as [Hiff _]. destruct Hiff as [y Hy]; [eexists; reflexivity|discriminate].
   - destruct Hiff as [Hiff _]. destruct Hiff as [y Hy]; [eexists; reflexivity|discriminate].
@@ -488,17 +499,26 @@ Proof.
   - destruct Hiff as [_ Hiff]. destruct Hiff as [y Hy]; [eexists; reflexivity|discriminate].
 Qed.
 
+(* whatever buffer the uncompressed file of a picture loads to, the file written with either value of
+   SaveOptions.compress loads to it *)
+Lemma xb_load_any_compress p two pg0 pg1 f0 f1 fh s comp du b : xb_shape_g p two pg0 pg1 f0 f1 fh ->
+  save_xbo false p = Ok du -> load_xb2 du s = Ok b ->
+  exists data, save_xbo comp p = Ok data /\ load_xb2 data s = Ok b.
+Proof.
+  intros Hs Hu Hl. destruct comp; [|exists du; split; assumption].
+  destruct (proj2 (xb_files_exist_alike p two pg0 pg1 f0 f1 fh Hs) (ex_intro _ _ Hu)) as (dc & Hc).
+  exists dc. split; [exact Hc|].
+  destruct (xb_files_load_alike p two pg0 pg1 f0 f1 fh s s dc Hs Hc) as (du' & Hdu & Heq).
+  rewrite Hu in Hdu. injection Hdu as <-. rewrite Heq. exact Hl.
+Qed.
+
 Lemma xb_roundtrip_o p s comp two f0 f1 fh : xb_hyps p two f0 f1 fh ->
   exists data, save_xbo comp p = Ok data /\ load_xb2 data s = Ok (xb_bfin p two f0 f1 fh).
 Proof.
-  intro Hh. pose proof (xb_hyps_shape _ _ _ _ _ Hh) as Hs.
-  assert (Hu : save_xbo false p = Ok (xb_data p two f0 f1 fh)) by (rewrite save_xbo_false; apply xb_save, Hh).
-  assert (Hlu : load_xb2 (xb_data p two f0 f1 fh) s = Ok (xb_bfin p two f0 f1 fh)) by (apply xb_fixed_accepts, xb_load, Hh).
-  destruct comp; [|exists (xb_data p two f0 f1 fh); split; assumption].
-  destruct (proj2 (xb_files_exist_alike p two f0 f1 fh Hs) (ex_intro _ _ Hu)) as (dc & Hc).
-  exists dc. split; [exact Hc|].
-  destruct (xb_files_load_alike p two f0 f1 fh s s dc Hs Hc) as (du & Hdu & Heq).
-  rewrite Hu in Hdu. injection Hdu as <-. rewrite Heq. exact Hlu.
+  intro Hh. apply (xb_load_any_compress p two 0 1 f0 f1 fh s comp (xb_data p two f0 f1 fh)).
+  - apply xb_hyps_shape, Hh.
+  - rewrite save_xbo_false. apply xb_save, Hh.
+  - apply xb_fixed_accepts, xb_load, Hh.
 Qed.
 
 Lemma xb_roundtrip1_o_proof : forall compress p s, representable_xb1 p ->
@@ -517,4 +537,28 @@ Proof.
   destruct (xb_roundtrip_o p s comp true f0 f1 h Hh) as (data & Hs & Hl).
   exists data, (xb_bfin p true f0 f1 h). split; [exact Hs|]. split; [exact Hl|].
   apply (xb_same p true f0 f1 h Hh).
+Qed.
+
+(* the statement the property makes about FILES: for every representable picture both files exist and load to pictures
+   that are the saved picture - and to each other exactly (same buffer) *)
+Lemma xb_compress_transparent1_proof : forall p s, representable_xb1 p ->
+  exists dc du b, save_xbo true p = Ok dc /\ save_xbo false p = Ok du /\
+                  load_xb2 dc s = Ok b /\ load_xb2 du s = Ok b /\ same_picture true [0%N] p (pic_of b).
+Proof.
+  intros p s H. destruct (xb1_hyps p H) as (f0 & Hh).
+  destruct (xb_roundtrip_o p s true false f0 f0 (f_h f0) Hh) as (dc & Hsc & Hlc).
+  destruct (xb_roundtrip_o p s false false f0 f0 (f_h f0) Hh) as (du & Hsu & Hlu).
+  exists dc, du, (xb_bfin p false f0 f0 (f_h f0)). repeat split; try assumption.
+  all: apply (xb_same p false f0 f0 (f_h f0) Hh).
+Qed.
+
+Lemma xb_compress_transparent2_proof : forall p s, representable_xb2 p ->
+  exists dc du b, save_xbo true p = Ok dc /\ save_xbo false p = Ok du /\
+                  load_xb2 dc s = Ok b /\ load_xb2 du s = Ok b /\ same_picture true [0%N; 1%N] p (pic_of b).
+Proof.
+  intros p s H. destruct (xb2_hyps p H) as (f0 & f1 & h & Hh).
+  destruct (xb_roundtrip_o p s true true f0 f1 h Hh) as (dc & Hsc & Hlc).
+  destruct (xb_roundtrip_o p s false true f0 f1 h Hh) as (du & Hsu & Hlu).
+  exists dc, du, (xb_bfin p true f0 f1 h). repeat split; try assumption.
+  all: apply (xb_same p true f0 f1 h Hh).
 Qed.
